@@ -258,9 +258,10 @@ func (s *Sched) TraceFP() string { return h(s.trace...) }
 // SimClient wraps the real deps.dev LocalClient.  LocalClient sorts its version slices in
 // place and hands out internal slices, so calls are serialised and results copied.
 type SimClient struct {
-	s  *Sched
-	mu sync.Mutex
-	lc *resolve.LocalClient
+	s     *Sched
+	mu    sync.Mutex
+	lc    *resolve.LocalClient
+	order string // World.VersionsOrder
 }
 
 func (c *SimClient) Version(ctx context.Context, vk resolve.VersionKey) (resolve.Version, error) {
@@ -273,13 +274,28 @@ func (c *SimClient) Version(ctx context.Context, vk resolve.VersionKey) (resolve
 }
 
 func (c *SimClient) Versions(ctx context.Context, pk resolve.PackageKey) ([]resolve.Version, error) {
-	if err := c.s.enter("Vs "+pk.Name, inResolver()); err != nil {
+	res := inResolver()
+	if err := c.s.enter("Vs "+pk.Name, res); err != nil {
 		return nil, err
 	}
 	c.mu.Lock()
 	defer c.mu.Unlock()
 	vs, err := c.lc.Versions(ctx, pk)
-	return append([]resolve.Version(nil), vs...), err
+	out := append([]resolve.Version(nil), vs...)
+	// The Client contract promises no order for Versions.  The deps.dev resolvers are served
+	// the LocalClient's order; the library's own callers get the scenario's order.
+	if !res && len(out) > 1 {
+		switch c.order {
+		case "desc":
+			for i, j := 0, len(out)-1; i < j; i, j = i+1, j-1 {
+				out[i], out[j] = out[j], out[i]
+			}
+		case "rot":
+			k := len(out) / 2
+			out = append(append([]resolve.Version(nil), out[k:]...), out[:k]...)
+		}
+	}
+	return out, err
 }
 
 func (c *SimClient) Requirements(ctx context.Context, vk resolve.VersionKey) ([]resolve.RequirementVersion, error) {
